@@ -26,7 +26,8 @@
    A read in [read...] is its bytes, or [bytes; 1] when the scripted connection (client kind 3)
    returned them together with os.ErrDeadlineExceeded; ([]; 1) is a scripted (0, deadline) read.
    Client kinds: 0 lock-step, 1 back to back (net.Pipe), 2 everything buffered beforehand,
-   3 scripted reads with deadline errors and an enforced write deadline.
+   3 scripted reads with deadline errors and an enforced write deadline, 4 a pipe client that pauses
+   1.3 s between the fragments of a request.
    A srv_conn case may carry a write script [j; k] as its fifth argument: the j-th Write call of the
    connection accepts only k bytes (k < 0: all but one) and fails with a timeout; status 3 = the
    connection goroutine ended after a failed write.  What is recorded as written is what the
